@@ -969,6 +969,13 @@ def readGraph(input_file,
                 G.remove_node('\\n')
             except networkx.exception.NetworkXError:
                 pass
+            # node names in a dot file are strings: when all of them are
+            # integers keep their numeric order, otherwise vertex '10'
+            # would be numbered before vertex '2'.
+            try:
+                G = networkx.relabel_nodes(G, {v: int(v) for v in G.nodes()})
+            except ValueError:
+                pass
             G = graph_class.normalize(G)
         except TypeError:
             raise ValueError('Parse Error in dot file')
